@@ -21,6 +21,7 @@ func init() {
 			c.run("C12-G", "GUARD-DOM: constant-offset accesses in parsers/scanners are guarded", c12Guards)
 			c.run("C12-L", "LITERAL: escape tables cover every byte value", c12Tables)
 			c.run("C12-K", "PAIR: panic containment inventory", c12Containment)
+			c.run("C12-K2", "TYPESTATE: a function that calls recover() is only ever deferred", recoverOnlyDeferred)
 			c.run("C12-U", "GUARD-DOM: the escape decoder never writes past / into an empty output buffer", c12Unescape)
 			c.run("C12-N2", "GUARD-DOM: results that may be nil without an error are used only after a nil test", c12NilableResults)
 			c.run("C12-D3", "TYPESTATE: a pointer field a callee may clear is not dereferenced after the call without a new test", c12NilAfterCall)
